@@ -49,6 +49,10 @@ def verify_contract(eng, prover, pid, base, fi, contract, st, args, kwargs=None,
             guards.append(g)
         ctx = {"path": n, "outcome": kind}
         prover.goal(f"{pid}/def:{base}/covered:{kind}-exit-allowed", x, smt.or_(guards), info=ctx)
+        # modularity: the preconditions of the callees used inside the body hold at their call sites
+        for e in x.events:
+            if e[0] == "requires":
+                prover.goal(f"{pid}/def:{base}/callee-requires:{e[1]}:{e[2]}", x, e[3], info=ctx)
         for c, g in zip(same, guards):
             y = x.copy()
             y.assume(g)
